@@ -547,8 +547,29 @@ func TestC05(t *testing.T) {
 				if i == 0 {
 					warm = node
 				}
-				c.Guard("LookupByString", func() { node.LookupByString(name) })
-				checkSubset(c, fmt.Sprintf("C05|dir-overfetch|member=%v", member), fmt.Sprintf("LookupByString(%q) on a fresh fanout-%d directory (depth %d, %d shards)", name, d.Fanout, depth+1, len(shards)), st.ReadCids(), allowed)
+				// the lookup entry points rotate: by string, by segment, by node (plain and dag-pb typed
+				// string) and the native typed accessor
+				ep := i % 5
+				c.Guard("lookup", func() {
+					switch ep {
+					case 0:
+						node.LookupByString(name)
+					case 1:
+						node.LookupBySegment(datamodel.PathSegmentOfString(name))
+					case 2:
+						node.LookupByNode(basicnode.NewString(name))
+					case 3:
+						node.LookupByNode(pbString(name))
+					default:
+						if nl, isN := node.(interface{ Lookup(dagpb.String) dagpb.Link }); isN {
+							nl.Lookup(pbString(name))
+						} else {
+							node.LookupByString(name)
+						}
+					}
+				})
+				c.Count(fmt.Sprintf("dir_lookups_entry_point_%d", ep), 1)
+				checkSubset(c, fmt.Sprintf("C05|dir-overfetch|member=%v", member), fmt.Sprintf("lookup (entry point %d: 0 string, 1 segment, 2 node, 3 typed node, 4 native) of %q on a fresh fanout-%d directory (depth %d, %d shards)", ep, name, d.Fanout, depth+1, len(shards)), st.ReadCids(), allowed)
 				if member {
 					c.Count("dir_lookups_member", 1)
 				} else {
